@@ -369,6 +369,9 @@ impl Prop for Giant {
             interrupts: kv.get("case.interrupts")? == "true",
         })
     }
+    fn max_threads(&self) -> usize {
+        6
+    }
     fn sample(&self, c: &GiantCase) -> Json {
         Json::obj(vec![
             ("giant_item", Json::s(FORMS[c.form as usize % 6])),
